@@ -1053,7 +1053,17 @@ pub fn run_dispatch_case(ctx: &mut Ctx, rng: &mut Rng, _t: bool) {
             }
         }
     }
+    let before = ctx.case_violations;
     let stats = check_plan(ctx, &pr.inst, &out, &pr.nets, &pr.info);
+    if ctx.case_violations > before {
+        if let Ok(dir) = std::env::var("VERIF_SAVE_FIXTURES") {
+            // harvest mode (used once, on a tree with the dispatch repairs reverted, to build the regression corpus)
+            let _ = std::fs::create_dir_all(&dir);
+            let fx = crate::gen::fixture::Fixture::new(&pr.inst.links, pr.inst.trains.iter().map(|t| t.depart).collect(), pr.inst.trains.iter().map(|t| t.origs.clone()).collect(), pr.inst.trains.iter().map(|t| t.dests.clone()).collect(), pr.nets.clone());
+            let sig = ctx.rep.violations.last().map(|v| v.signature.replace([':', '/', ' '], "_")).unwrap_or_default();
+            let _ = fx.save(&std::path::Path::new(&dir).join(format!("{}_s{}_c{}_{}.bin", ctx.prop, ctx.rep.seed, ctx.case, sig.chars().take(60).collect::<String>())));
+        }
+    }
     let opposing = pr.inst.trains.iter().any(|t| t.reverse) && pr.inst.trains.iter().any(|t| !t.reverse);
     let nt = match ctx.prop {
         "C04" => opposing && stats.had_to_delay,
